@@ -16,6 +16,9 @@ RULE = (
 )
 
 IDENTS = ["A", "B", "core", "api", "db", "web_ui", "M1", "svc", "x", "util"]
+# names that merely START like a PlantUML keyword or like a word of the declaration syntax: they are ordinary component names
+KEYWORDISH = ["notes", "noted", "titles", "headers", "footer1", "legends", "captions", "skinparams", "components", "component_x",
+              "as_x", "asx", "startuml_x", "enduml1", "left", "right_x", "package1", "interfaces"]
 ARROWS_R = ["-->", "->", "-uses->", "-depends_on->"]
 ARROWS_L = ["<--", "<-", "<-uses-", "<-calls-"]
 NOISE = ["This is documentation.", "' a comment", "title demo", "", "some [text] here", "[outside]", "component outsider", "outsider --> [outside]",
@@ -27,6 +30,8 @@ def gen_diagram(rng):
     style = rng.choice(["ident", "dotted", "mixed"])
     names = []
     pool = IDENTS[:]
+    if rng.random() < 0.25:
+        pool += KEYWORDISH
     rng.shuffle(pool)
     for i in range(n):
         base = pool[i]
@@ -146,6 +151,57 @@ def judge(ctx, stream, cases):
                                    "theorem": "Pta.C06.* are statements about PtaModel.pumlParse", "text": c["text"], "impl": i, "model": m})
 
 
+def _one_parser(texts):
+    """several files parsed by ONE PumlParser object, each result next to that of a fresh parser"""
+    from ..impl import Project, PumlParser, err_kind
+
+    def show(fn):
+        try:
+            r = fn()
+        except Exception as e:  # noqa: BLE001
+            return "ERR:" + err_kind(e)
+        mods = ",".join(sorted(enc(m) for m in r.all_modules))
+        deps = ";".join(sorted(enc(k) + "~" + ",".join(sorted(enc(v) for v in vs)) for k, vs in r.dependencies.items()))
+        return "OK:" + mods + "|" + deps
+
+    out = []
+    with Project({f"d{i}.puml": t for i, t in enumerate(texts)}) as p:
+        shared = PumlParser()
+        for i in range(len(texts)):
+            out.append((show(lambda: shared.parse(p.path(f"d{i}.puml"))), show(lambda: PumlParser().parse(p.path(f"d{i}.puml")))))
+    return out
+
+
+def parser_reuse(ctx, stream, n):
+    rng = ctx.rng("one-parser")
+    groups = []
+    for _ in range(n):
+        k = rng.randint(2, 4)
+        ds = [gen_diagram(rng) for _ in range(k)]
+        if rng.random() < 0.5:
+            # a later file uses, as a plain component name, an alias that an earlier file declared
+            import re as _re
+
+            als = _re.findall(r" as (\w+)", ds[0]["text"])
+            if als:
+                a = rng.choice(als)
+                ds[-1] = dict(ds[-1], text=ds[-1]["text"].replace("@enduml", f"[{a}] --> [zzz]\n{a} -> [yyy]\n@enduml", 1))
+        groups.append([d["text"] for d in ds])
+    res = pmap(_one_parser, groups, ctx.jobs, chunk=20)
+    for texts, outs in zip(groups, res):
+        for i, (shared, fresh) in enumerate(outs):
+            stream.evaluations += 1
+            if i:
+                stream.nontrivial.add(digest((tuple(texts[: i + 1]),)))
+            if shared != fresh:
+                ctx.violations.append({"kind": "property-violation",
+                                       "what": f"a PumlParser object that has parsed other files before parses file #{i} differently from a fresh parser",
+                                       "texts": texts[: i + 1], "shared_parser": shared, "fresh_parser": fresh})
+                if len(ctx.violations) >= 3:
+                    return
+                break
+
+
 def run(ctx: Ctx):
     run_witnesses(ctx)
     quick = ctx.quick()
@@ -166,4 +222,8 @@ def run(ctx: Ctx):
         bad.append({"text": t, "malformed": True})
     judge(ctx, s, bad)
     s.finish()
+    if not ctx.violations:
+        s = Stream(ctx, "one PumlParser object over several files (aliases of an earlier file re-used as component names later) vs a fresh parser per file")
+        parser_reuse(ctx, s, ctx.size(600, 12000))
+        s.finish()
     return RULE
